@@ -9,7 +9,7 @@
 (* predicates after every call.  It collects violations instead of         *)
 (* blocking, so that one run reports all of them.                          *)
 (***************************************************************************)
-EXTENDS Judge, Driver, Models, Json, IOUtils
+EXTENDS Judge, Driver, Models, TestImage, Json, IOUtils
 
 Rec == ndJsonDeserialize(IOEnv.TRACE)
 
@@ -63,8 +63,22 @@ Step(r) ==
      [s EXCEPT !.l = @ + 1, !.w = w1, !.img = FbView(w1.ctl), !.viol = @ \o JudgeInit(sc, w0, w1, r), !.stat = st1,
                !.d = [D0 EXCEPT !.alive = r.res = "ok", !.orient = Orient0(sc)]]
   ELSE IF r.name = "test_image" THEN
-     [s EXCEPT !.l = @ + 1, !.w = w1, !.img = FbView(w1.ctl), !.stat = st1,
-               !.viol = @ \o Chk(r.res = "ok", r, {"C19", "C02"}, "test image: " \o r.res \o " " \o r.pmsg \o " " \o r.ploc)]
+     \* C19 through a real Display: the decoded framebuffer, mapped back to logical positions, must satisfy the
+     \* predicates of the property; nothing outside the panel window may change; the exact picture is DRIFT only
+     LET fb == FbView(w1.ctl)
+         ls == LogicalSize(sc.cfg, d.orient)
+         pic == [p \in (0 .. ls[1] - 1) \X (0 .. ls[2] - 1) |->
+                   LET c == Place(sc.cfg, d.orient, p[1], p[2]) IN
+                   IF c \in DOMAIN fb THEN ClassOf(sc.cfg.colour, fb[c]) ELSE 9]
+         good == IF ls[1] >= 32 /\ ls[2] >= 32 THEN GoodPicture(pic, ls[1], ls[2]) ELSE ""
+         fr == FramingErrors(w0.ctl, w1.cmds, WordsPerPixel(w1.ctl), TRUE)
+     IN [s EXCEPT !.l = @ + 1, !.w = w1, !.img = fb, !.stat = st1,
+               !.ncmp = @ + 1, !.ndrift = IF r.res = "ok" /\ pic # TestImagePic(ls[1], ls[2]) THEN @ + 1 ELSE @,
+               !.viol = @ \o Chk(r.res = "ok", r, {"C19", "C02"}, "test image: " \o r.res \o " " \o r.pmsg \o " " \o r.ploc)
+                          \o Chk(r.res # "ok" \/ good = "", r, {"C19"}, "test image through the display: " \o good)
+                          \o Chk(r.res # "ok" \/ \A c \in DOMAIN fb : InWindow(sc.cfg, c), r, {"C19", "C02"},
+                                 "the test image modified a cell outside the panel window")
+                          \o Chk(r.res # "ok" \/ fr = "", r, {"C08"}, "framing: " \o fr)]
   ELSE IF IsDrawing(r.name) THEN
      LET j == JudgeDrawing(sc, d, s.img, w0, w1, r, s.rowcap)
          img1 == IF r.res = "ok" THEN j.img ELSE FbView(w1.ctl)
@@ -207,8 +221,22 @@ Step(r) ==
      [s EXCEPT !.l = @ + 1, !.w = w1, !.img = FbView(w1.ctl), !.viol = @ \o JudgeInit(sc, w0, w1, r), !.stat = st1,
                !.d = [D0 EXCEPT !.alive = r.res = "ok", !.orient = Orient0(sc)]]
   ELSE IF r.name = "test_image" THEN
-     [s EXCEPT !.l = @ + 1, !.w = w1, !.img = FbView(w1.ctl), !.stat = st1,
-               !.viol = @ \o Chk(r.res = "ok", r, {"C19", "C02"}, "test image: " \o r.res \o " " \o r.pmsg \o " " \o r.ploc)]
+     \* C19 through a real Display: the decoded framebuffer, mapped back to logical positions, must satisfy the
+     \* predicates of the property; nothing outside the panel window may change; the exact picture is DRIFT only
+     LET fb == FbView(w1.ctl)
+         ls == LogicalSize(sc.cfg, d.orient)
+         pic == [p \in (0 .. ls[1] - 1) \X (0 .. ls[2] - 1) |->
+                   LET c == Place(sc.cfg, d.orient, p[1], p[2]) IN
+                   IF c \in DOMAIN fb THEN ClassOf(sc.cfg.colour, fb[c]) ELSE 9]
+         good == IF ls[1] >= 32 /\ ls[2] >= 32 THEN GoodPicture(pic, ls[1], ls[2]) ELSE ""
+         fr == FramingErrors(w0.ctl, w1.cmds, WordsPerPixel(w1.ctl), TRUE)
+     IN [s EXCEPT !.l = @ + 1, !.w = w1, !.img = fb, !.stat = st1,
+               !.ncmp = @ + 1, !.ndrift = IF r.res = "ok" /\ pic # TestImagePic(ls[1], ls[2]) THEN @ + 1 ELSE @,
+               !.viol = @ \o Chk(r.res = "ok", r, {"C19", "C02"}, "test image: " \o r.res \o " " \o r.pmsg \o " " \o r.ploc)
+                          \o Chk(r.res # "ok" \/ good = "", r, {"C19"}, "test image through the display: " \o good)
+                          \o Chk(r.res # "ok" \/ \A c \in DOMAIN fb : InWindow(sc.cfg, c), r, {"C19", "C02"},
+                                 "the test image modified a cell outside the panel window")
+                          \o Chk(r.res # "ok" \/ fr = "", r, {"C08"}, "framing: " \o fr)]
   ELSE IF IsDrawing(r.name) THEN
      LET j == JudgeDrawing(sc, d, s.img, w0, w1, r, s.rowcap)
          img1 == IF r.res = "ok" THEN j.img ELSE FbView(w1.ctl)
